@@ -504,9 +504,18 @@ class Gen:
         fw = r.choice(self.fw)
         if self.arm == "reject" and r.random() < 0.15:
             fw = "nosuchframework"
-        self.add("export", {"target": e["id"], "fw": fw, "mode": r.choice(["circuit", "gate"])}, [e["id"]], s, "none")
+        mode = r.choice(["circuit", "gate"])
+        self.add("export", {"target": e["id"], "fw": fw, "mode": mode}, [e["id"]], s, "none")
         if fw == "nosuchframework":
             self.use_again(e, s)
+        elif r.random() < 0.3:
+            # the same object exported again at once: in the OTHER mode, or to another framework (whatever the first
+            # export left on the object must not decide what the second one gets)
+            if r.random() < 0.7:
+                self.add("export", {"target": e["id"], "fw": fw, "mode": "gate" if mode == "circuit" else "circuit"}, [e["id"]], s, "none")
+            else:
+                self.add("export", {"target": e["id"], "fw": r.choice(self.fw), "mode": mode}, [e["id"]], s, "none")
+            self.interesting.append(len(self.ops) - 1)
         return True
 
     def use_again(self, e, s, p=0.6):
